@@ -286,7 +286,8 @@ func (an *Analysis) isRepoCallResult(v ssa.Value) bool {
 		return false
 	}
 	for _, f := range an.P.RepoCallees(c) {
-		if len(f.Blocks) > 0 {
+		rs := sigResults(f)
+		if len(f.Blocks) > 0 && len(rs) == 2 && isHTTPResponsePtr(rs[0]) && isErrorType(rs[1]) {
 			return true
 		}
 	}
